@@ -428,8 +428,18 @@ def _init_shutdown(run, P):
         isinstance(x, ast.Call) and dotted(x.func) == "self.emit_variable_init"
         for x in ast.walk(n))]
     from .util import core
+    def every_iteration(lp_):
+        """the init call is a statement of the loop body itself and nothing before it can
+        skip to the next entry"""
+        for i_, st_ in enumerate(lp_.body):
+            if isinstance(st_, ast.Expr) and isinstance(st_.value, ast.Call) \
+                    and dotted(st_.value.func) == "self.emit_variable_init":
+                return not any(isinstance(y, (ast.Continue, ast.Break, ast.Return))
+                               for b_ in lp_.body[:i_] for y in ast.walk(b_))
+        return False
     ok = bool(loops) and "sorted(self.sym_kind_table.global_table.items())" == norm(loops[0].iter) \
-        and len(core(loops[0].body, lambda s_: "self.emit_variable_init" in ast.unparse(s_))) == 1
+        and (len(core(loops[0].body, lambda s_: "self.emit_variable_init" in ast.unparse(s_))) == 1
+             or every_iteration(loops[0]))
     run.ob("C12.init", fi, loops[0] if loops else fi.node, ok,
            construct="initialize: emit_variable_init for every global entry, no filter",
            why="state components start unassociated")
